@@ -53,8 +53,9 @@ type Case struct {
 	Doc   *htmlw.Doc `json:"doc"`
 	Order []Req      `json:"order"`
 	HTM   bool       `json:"htm,omitempty"` // tabula.Open("x.htm") instead of "x.html"
-	// EmptySpans: that many <span/> tags are appended behind the document (XHTML page anchors / inline SVG shapes
-	// are written like this by the thousand); they hold no text and no attributes
+	// EmptySpans: that many <span/> tags are appended behind the document (XHTML page anchors are written like this by
+	// the thousand); they hold no text and no attributes. The HTML parser reads <span/> as a start tag, so they nest:
+	// the numbers stay below the reader's nesting limit of 2000 (beyond it the reader refuses, which is C02's business)
 	EmptySpans int `json:"empty_spans,omitempty"`
 }
 
@@ -603,7 +604,7 @@ func genCase(t *rapid.T) Case {
 	}
 	c.HTM = rapid.Bool().Draw(t, "htm")
 	if rapid.IntRange(0, 24).Draw(t, "emptySpans") == 12 {
-		c.EmptySpans = rapid.SampledFrom([]int{2100, 2600}).Draw(t, "nEmptySpans")
+		c.EmptySpans = rapid.SampledFrom([]int{1200, 1900}).Draw(t, "nEmptySpans")
 	}
 	return c
 }
